@@ -231,9 +231,15 @@ func decodeBytecodeV2(bc *Bytecode, r *bytes.Buffer) error {
 				return err
 			}
 
-			sz := obj.(ugo.Int)
+			sz, ok := obj.(ugo.Int)
+			if !ok {
+				return errors.New("invalid file set size type")
+			}
 			if sz <= 0 {
 				continue
+			}
+			if int64(sz) > int64(r.Len()) {
+				return io.ErrUnexpectedEOF
 			}
 
 			data := make([]byte, sz)
@@ -252,21 +258,33 @@ func decodeBytecodeV2(bc *Bytecode, r *bytes.Buffer) error {
 				return err
 			}
 
-			bc.Main = f.(*ugo.CompiledFunction)
+			main, ok := f.(*ugo.CompiledFunction)
+			if !ok {
+				return errors.New("invalid main function type")
+			}
+			bc.Main = main
 		case 2:
 			obj, err := DecodeObject(r)
 			if err != nil {
 				return err
 			}
 
-			bc.Constants = obj.(ugo.Array)
+			constants, ok := obj.(ugo.Array)
+			if !ok {
+				return errors.New("invalid constants type")
+			}
+			bc.Constants = constants
 		case 3:
 			num, err := DecodeObject(r)
 			if err != nil {
 				return err
 			}
 
-			bc.NumModules = int(num.(ugo.Int))
+			n, ok := num.(ugo.Int)
+			if !ok {
+				return errors.New("invalid number of modules type")
+			}
+			bc.NumModules = int(n)
 		default:
 			return errors.New("unknown field:" + strconv.Itoa(int(field)))
 		}
@@ -297,7 +315,7 @@ func DecodeObject(r io.Reader) (ugo.Object, error) {
 			return nil, err
 		}
 
-		buf := make([]byte, 2+size)
+		buf := make([]byte, 2+int(size))
 		buf[0] = btype
 		buf[1] = size
 		if size > 0 {
@@ -351,16 +369,17 @@ func DecodeObject(r io.Reader) (ugo.Object, error) {
 			return nil, errors.New("negative value")
 		}
 
-		n := 1 + len(readBytes)
-		buf := make([]byte, n+int(value))
-		buf[0] = btype
-		copy(buf[1:], readBytes)
+		// do not trust the size prefix: the buffer grows with the data read.
+		var bb bytes.Buffer
+		bb.WriteByte(btype)
+		bb.Write(readBytes)
 
 		if value > 0 {
-			if _, err = io.ReadFull(r, buf[n:]); err != nil {
+			if _, err = io.CopyN(&bb, r, value); err != nil {
 				return nil, err
 			}
 		}
+		buf := bb.Bytes()
 
 		switch btype {
 		case binCompiledFunctionV1:
@@ -665,6 +684,10 @@ func (o *String) UnmarshalBinary(data []byte) error {
 		return nil
 	}
 
+	if size > int64(len(data)) {
+		return errors.New("invalid ugo.String data size")
+	}
+
 	ub := 1 + offset + int(size)
 	if len(data) < ub {
 		return errors.New("invalid ugo.String data size")
@@ -705,6 +728,10 @@ func (o *Bytes) UnmarshalBinary(data []byte) error {
 
 	if size <= 0 {
 		return nil
+	}
+
+	if size > int64(len(data)) {
+		return errors.New("invalid ugo.Bytes data size")
 	}
 
 	ub := 1 + offset + int(size)
@@ -765,6 +792,10 @@ func (o *Array) UnmarshalBinary(data []byte) error {
 	if size <= 0 {
 		return nil
 	}
+	if size > int64(len(data)) {
+		return errors.New("invalid ugo.Array data size")
+	}
+
 	ub := 1 + offset + int(size)
 	if len(data) < ub {
 		return errors.New("invalid ugo.Array data size")
@@ -777,6 +808,10 @@ func (o *Array) UnmarshalBinary(data []byte) error {
 	length, err := vi.read()
 	if err != nil {
 		return err
+	}
+
+	if length < 0 || length > int64(rd.Len()) {
+		return errors.New("invalid ugo.Array length")
 	}
 
 	arr := make([]ugo.Object, 0, int(length))
@@ -840,7 +875,7 @@ func (o *Map) UnmarshalBinary(data []byte) error {
 		return nil
 	}
 
-	if len(data) < 1+offset+int(size) {
+	if size > int64(len(data)) || len(data) < 1+offset+int(size) {
 		return errors.New("invalid ugo.Map data size")
 	}
 
@@ -989,6 +1024,10 @@ func (o *CompiledFunction) UnmarshalBinary(data []byte) error {
 		return nil
 	}
 
+	if size > int64(len(data)) || len(data) < 1+offset+int(size) {
+		return errors.New("invalid ugo.CompiledFunction data size")
+	}
+
 	rd := bytes.NewReader(data[1+offset : 1+offset+int(size)])
 	var vi varintConv
 	vi.reader = rd
@@ -1016,7 +1055,11 @@ func (o *CompiledFunction) UnmarshalBinary(data []byte) error {
 			if err != nil {
 				return err
 			}
-			o.Instructions = obj.(ugo.Bytes)
+			insts, ok := obj.(ugo.Bytes)
+			if !ok {
+				return errors.New("invalid instructions type")
+			}
+			o.Instructions = insts
 		case 3:
 			o.Variadic = true
 		case 4:
@@ -1025,6 +1068,10 @@ func (o *CompiledFunction) UnmarshalBinary(data []byte) error {
 			length, err := vi.read()
 			if err != nil {
 				return err
+			}
+
+			if length < 0 || length > int64(rd.Len()) {
+				return errors.New("invalid source map length")
 			}
 
 			sz := int(length / 2)
@@ -1173,7 +1220,12 @@ func (sf *SourceFile) UnmarshalBinary(data []byte) error {
 		return err
 	}
 
-	sf.Name = obj.String()
+	name, ok := obj.(ugo.String)
+	if !ok {
+		return errors.New("invalid source file name type")
+	}
+
+	sf.Name = string(name)
 	var vi varintConv
 	vi.reader = rd
 	v, err := vi.read()
@@ -1193,6 +1245,10 @@ func (sf *SourceFile) UnmarshalBinary(data []byte) error {
 	v, err = vi.read()
 	if err != nil {
 		return err
+	}
+
+	if v < 0 || v > int64(rd.Len()) {
+		return errors.New("invalid source file lines length")
 	}
 
 	length := int(v)
@@ -1257,6 +1313,10 @@ func (sfs *SourceFileSet) UnmarshalBinary(data []byte) error {
 		return err
 	}
 
+	if v < 0 || v > int64(rd.Len()) {
+		return errors.New("invalid source file set length")
+	}
+
 	length := int(v)
 	files := make([]*parser.SourceFile, length)
 
@@ -1265,6 +1325,10 @@ func (sfs *SourceFileSet) UnmarshalBinary(data []byte) error {
 		if err != nil {
 			return err
 		}
+		if v < 0 || v > int64(rd.Len()) {
+			return io.ErrUnexpectedEOF
+		}
+
 		data := make([]byte, v)
 		if _, err = io.ReadFull(rd, data); err != nil {
 			return err
